@@ -986,14 +986,19 @@ func (g *groupQuery) position() int {
 // logicalQuery is an XPath logical expression.
 type logicalQuery struct {
 	Left, Right query
+	done        bool
 
 	Do func(iterator, interface{}, interface{}) interface{}
 }
 
 func (l *logicalQuery) Select(t iterator) NodeNavigator {
-	// When a XPath expr is logical expression.
+	// When a XPath expr is logical expression: the context node, once.
+	if l.done {
+		return nil
+	}
+	l.done = true
 	node := t.Current().Copy()
-	val := l.Evaluate(t)
+	val := l.evaluate(t)
 	switch val.(type) {
 	case bool:
 		if val.(bool) == true {
@@ -1004,6 +1009,11 @@ func (l *logicalQuery) Select(t iterator) NodeNavigator {
 }
 
 func (l *logicalQuery) Evaluate(t iterator) interface{} {
+	l.done = false
+	return l.evaluate(t)
+}
+
+func (l *logicalQuery) evaluate(t iterator) interface{} {
 	m := l.Left.Evaluate(t)
 	n := l.Right.Evaluate(t)
 	return l.Do(t, m, n)
